@@ -50,6 +50,19 @@ _OPS = {ast.Div: "/", ast.FloorDiv: "//", ast.Mod: "%", ast.Mult: "*", ast.Pow: 
 
 def _atom(e: ast.expr) -> str:
     """Canonical text of a sub-term that the linear normaliser treats as opaque."""
+    if isinstance(e, ast.BinOp) and isinstance(e.op, (ast.BitOr, ast.BitAnd, ast.BitXor)):
+        # commutative and associative on ints / flags: operands flattened and sorted
+        parts: list[str] = []
+
+        def flat(x: ast.expr) -> None:
+            if isinstance(x, ast.BinOp) and type(x.op) is type(e.op):
+                flat(x.left)
+                flat(x.right)
+            else:
+                parts.append(canon(x))
+
+        flat(e)
+        return "(" + f" {_OPS.get(type(e.op), '?')} ".join(sorted(parts)) + ")"
     if isinstance(e, ast.BinOp):
         return f"({canon(e.left)} {_OPS.get(type(e.op), '?')} {canon(e.right)})"
     if isinstance(e, ast.UnaryOp):
@@ -103,7 +116,10 @@ def _hoist_ifexp(e: ast.expr) -> ast.expr | None:
 
 def canon(e: ast.expr) -> str:
     if isinstance(e, ast.Call):
-        args = ", ".join([canon(a) for a in e.args] + [f"{k.arg}={canon(k.value)}" for k in e.keywords])
+        al = [canon(a) for a in e.args]
+        if isinstance(e.func, ast.Name) and e.func.id in ("min", "max") and not e.keywords:
+            al = sorted(al)  # symmetric in their arguments
+        args = ", ".join(al + [f"{k.arg}={canon(k.value)}" for k in e.keywords])
         return f"{canon(e.func)}({args})"
     if (isinstance(e, ast.BinOp) and isinstance(e.op, (ast.Add, ast.Sub))) or (isinstance(e, ast.UnaryOp) and isinstance(e.op, ast.USub)):
         h = _hoist_ifexp(e)
